@@ -30,6 +30,16 @@ CHECKS["C12"] = dict(engine="codecx", technique="bounded-exhaustive enumeration 
    text="Every record of a structured space (6 kinds, all Some/None combinations, boundary integers, payloads to 64 KiB) is encoded by an independent encoder, decoded by the crate, re-encoded and compared, with consumed length checked against trailing garbage; every proper prefix must be UnexpectedEof; every single-byte substitution and every enumerated arbitrary input must not panic and, if accepted, must re-encode to exactly the consumed bytes.",
    note="inputs outside the enumerated spaces by representatives; VT types; overflow checks on", ref="5 C12")
 
+CHECKS["C09"] = dict(engine="imagex", technique="exhaustive single-byte mutation / chunk-removal enumeration of real on-disk images, recovered by the real open()",
+   text="For every seed image (final directory of a real run, chosen for layout diversity) every byte of every chunk file is replaced by each value of the replacement set (quick: 8 bit flips + 00/FF/+1; thorough: all 255) and opened with the real RaftLog::open: Err, or Ok with the written state, never a panic; a refused open must leave every non-newest file byte-identical; every middle chunk removed in turn; under an open store with an empty cache every byte of every live entry's record in a closed chunk is corrupted and read back.",
+   note="seed images from bounded histories; known findings F10a/F10b classified by an independent decoder", ref="5 C09")
+CHECKS["C10"] = dict(engine="imagex", technique="exhaustive cut-position / zero-tail enumeration of real on-disk images, recovered by the real open()",
+   text="For every seed image the newest chunk is cut at every byte position 0..=len and given zero tails from every record boundary with lengths 1..64, 1023-1025, 33 KiB, under both values of truncate_incomplete_record; the recovered state must be the one denoted by exactly the completely present records (reference model replay), the complete prefix must be preserved on disk, writes+flush+another restart must work; with truncation disabled damaged tails must be refused with files untouched.",
+   note="seed images from bounded histories", ref="5 C10")
+CHECKS["C13"] = dict(engine="lockx", technique="exhaustive command-sequence enumeration over 3 contender processes with a reference holder variable",
+   text="Three contender processes (each may also attempt a second in-process instance) are driven through every sequence over {open store, open dump, drop} up to depth 5 (quick) / 7 (thorough) on a directory whose newest chunk has a torn tail (an opener that got past the lock would modify it); an attempt must succeed iff nobody holds the directory, refused attempts must leave every chunk file byte-identical.",
+   note="kernel flock trusted; thread-level libc-call interleavings: fine level under the controlled scheduler", ref="5 C13")
+
 NOT_YET = {
  "C03": "engine schedx --crash not built yet (planned, DESIGN 4.3)",
  "C04": "engine schedx with fault injection not built yet (planned, DESIGN 4.2)",
@@ -75,6 +85,10 @@ def main():
         "engines": [
             {"name": "seqx", "path": "harness/src/seqx.rs", "serves_properties": ["C01","C02","C06","C11","C15","C16"],
              "kind_free_text": "explicit-state breadth-first search over operation histories; every transition runs the real store; reference-model oracle"},
+            {"name": "imagex", "path": "harness/src/imagex.rs", "serves_properties": ["C09","C10"],
+             "kind_free_text": "exhaustive enumeration of damaged on-disk images recovered by the real RaftLog::open"},
+            {"name": "lockx", "path": "harness/src/lockx.rs", "serves_properties": ["C13"],
+             "kind_free_text": "exhaustive command-sequence enumeration over contender processes"},
             {"name": "codecx", "path": "harness/src/codecx.rs", "serves_properties": ["C12"],
              "kind_free_text": "bounded-exhaustive enumeration of the public record codec's input space"},
         ],
